@@ -46,6 +46,19 @@ def sentences(seed, n_random):
               b"EST5EDTM3.2.0,M11.1.0", b":EST5EDT,M3.2.0,M11.1.0", b":America/New_York", b"", b":", b"5", b"EST", b"<EST>5<EDT>,J1,J2",
               b"EST5EDT,M3.2.0/2,M11.1.0/2", b"EST5EDT,0/0,J365/25", b"EST+5EDT-4,J60/-167,365/167"):
         out.append(c)
+    # 2b. the same numbers spelled differently: zero-padded to 10 / 20 digits in every numeric position (values in range),
+    # and long digit runs whose value only looks small after narrowing to 8 / 16 / 32 / 64 bits
+    import re as _re
+    for t in (b"EST5", b"<+1030>-10:30", b"EST5:30:15", b"EST5EDT4:30,M3.2.0/2:30:15,M11.1.6/25", b"EST5EDT,J60/2,J300/-1:30",
+              b"EST5EDT,100,300/167", b"EST-14EDT-15,M12.5.0,M1.1.1"):
+        nums = list(_re.finditer(rb"\d+", t))
+        for m in nums:
+            if t[:m.start()].count(b"<") > t[:m.start()].count(b">"):
+                continue                      # digits inside a quoted abbreviation are not a number
+            for pad in (10, 20):
+                out.append(t[:m.start()] + m.group(0).rjust(pad, b"0") + t[m.end():])
+            for wrap in (256, 65536, 2 ** 32, 2 ** 64):
+                out.append(t[:m.start()] + str(int(m.group(0)) + wrap).encode() + t[m.end():])
     # 3. random combinations with an occasional bad component
     for _ in range(n_random):
         c = dict(std=pick(ABBR_OK, ABBR_BAD), so=pick(OFF_OK, OFF_BAD), dst=pick(ABBR_OK, ABBR_BAD),
